@@ -737,6 +737,23 @@ theorem serverCanon_wf (c : Crypto) (fx : Fix) (r : Req) (S : List Bytes) (presi
       · exact not_mem_lower 58 (fun c => (byte_facts c).2.2.2.2.2.2.2) _ b
     · contradiction
 
+-- ---------------------------------------------------------------- idealised primitives (hypotheses, never axioms)
+
+/-- idealised hash: no two inputs share a digest -/
+def CollisionFree (h : Bytes → Bytes) : Prop := ∀ a b, h a = h b → a = b
+
+/-- idealised MAC: a tag determines the key and the message it was computed for — nobody can
+present a valid tag for a message (or under a key) other than the one it was made for -/
+def Unforgeable (mac : Bytes → Bytes → Bytes) : Prop := ∀ k m k' m', mac k m = mac k' m' → k = k' ∧ m = m'
+
+/-- toy hash for the non-vacuity examples: the identity -/
+def toySha (b : Bytes) : Bytes := b
+
+/-- toy MAC for the non-vacuity examples: unary length of the key, a zero, the key, the message -/
+def toyMac (k m : Bytes) : Bytes := List.replicate k.length 1 ++ 0 :: (k ++ m)
+
+theorem toySha_collisionFree : CollisionFree toySha := fun _ _ h => h
+
 -- ---------------------------------------------------------------- hex is injective
 
 /-- value of a lower-case hex digit produced by `hexNibbleL` -/
@@ -908,5 +925,14 @@ theorem parseTimestamp_no_newline (ts : Bytes) (t : Int) (h : parseTimestamp ts 
         rw [htt]; decide
     · contradiction
   · contradiction
+
+theorem toyMac_unforgeable : Unforgeable toyMac := by
+  intro k m k' m' h
+  unfold toyMac at h
+  obtain ⟨h1, h2⟩ := split_unique 0 _ _ _ _ (by simp) (by simp) h
+  have hl : k.length = k'.length := by
+    have := congrArg List.length h1
+    simpa using this
+  exact List.append_inj h2 hl
 
 end Pithos.SigV4
